@@ -42,7 +42,7 @@ def file_content(gen):
         return by, layout['fields'], {'model': model, 'layout': layout}
     if world == 'lis':
         from worlds import lis_logical
-        model = lis_logical.gen_model(rng, max_frames=gen.get('frames', 40), names_pool=gen.get('names'))
+        model = lis_logical.gen_model(rng, max_frames=gen.get('frames', 40), names_pool=gen.get('names'), small_pr=gen.get('small_pr', False))
         by, layout = lis_logical.build(model)
         return by, layout['fields'], {'model': model, 'layout': layout}
     if world == 'dlis_phys':
@@ -61,7 +61,7 @@ def file_content(gen):
         return las.text(m).encode('ascii'), [], {'model': m}
     if world == 'dat':
         from worlds import dat
-        m = dat.gen_model(rng, max_rows=gen.get('frames', 10))
+        m = dat.gen_model(rng, max_rows=gen.get('frames', 10), big=gen.get('big', False))
         return dat.text_of(dat.lines(m), m['trailing_newline']).encode('ascii'), [], {'model': m}
     if world == 'foreign':
         from worlds import foreign
